@@ -110,6 +110,13 @@ def ftbl(keys, vals):
     return lst(["(%s, %s)" % (fl(k), fl(v)) for k, v in zip(np.asarray(keys).reshape(-1), np.asarray(vals).reshape(-1))])
 
 
+def ordered(d, active_last):
+    """predictor dict with the active metric listed first (False) or last (True): both are valid constructor /
+    predictor= arguments, the active metric is named explicitly"""
+    items = list(d.items())
+    return dict(reversed(items)) if active_last else dict(items)
+
+
 def richardson(f, x0, h):
     def d(hh):
         return (f(x0 + hh) - f(x0 - hh)) / (2.0 * hh)
@@ -174,6 +181,7 @@ def gen_head_spec(rng, head, tail=False):
     if head == "lcb":
         spec["kappa"] = rng.choice([1.0, 0.3, 2.5, rng.uniform(0.1, 4)])
     if head in ("eipu", "cei"):
+        spec["active_last"] = rng.random() < 0.5   # key order of the {output name: predictor} dict
         kind = rng.choice(["same", "same", "one", "many"] if nf > 1 else ["same", "many", "many"])
         nf2 = nf if kind == "same" else (1 if kind == "one" else rng.choice([2, 3, 4]))
         if kind == "many":  # secondary model has fantasies, the active one broadcasts
@@ -216,11 +224,11 @@ def build_acq(spec, Stub, M):
         return M.LCBAcquisitionFunction(act, kappa=spec["kappa"]), {"active": act}
     if head == "eipu":
         cost = Stub("cost", spec["costs"], 1.0, [[1.0] * len(spec["costs"])], mean_2d=True, keys=("mean",))
-        preds = {"active": act, "cost": cost}
+        preds = ordered({"active": act, "cost": cost}, spec.get("active_last"))
         return M.EIpuAcquisitionFunction(preds, active_metric="active", exponent_cost=spec["expo"],
                                          jitter=spec["jitter"]), preds
     con = Stub("constr", spec["means_c"], spec["std_c"], spec["cand_c"], mean_2d=True)
-    preds = {"active": act, "constr": con}
+    preds = ordered({"active": act, "constr": con}, spec.get("active_last"))
     return M.CEIAcquisitionFunction(preds, active_metric="active", jitter=spec["jitter"]), preds
 
 
@@ -277,13 +285,22 @@ def run_heads(ctx, specs):
     per_head = {"ei": [], "lcb": [], "eipu": [], "cei": []}
     for spec in specs:
         head = spec["head"]
-        out = eval_head(spec, Stub, M)
+        try:
+            out = eval_head(spec, Stub, M)
+        except Exception as exc:   # a valid public call on finite predictions must not raise
+            ctx.count((spec["head"], spec), nontrivial=True)
+            ctx.violation("property", "%s: compute_acq / compute_acq_with_gradient raised %s: %s on finite predictions" % (
+                spec["head"], type(exc).__name__, str(exc)[:200]), case=dict(kind="head", spec=spec),
+                signature=dict(function=spec["head"] + "_head", defect="exception", exception=type(exc).__name__))
+            continue
         nf = len(spec["means"])
         nf2 = spec.get("nf2", nf)
         N = max(nf, nf2) if head in ("eipu", "cei") else nf
         ctx.count((head, spec), nontrivial=(N > 1 or head in ("eipu", "cei")))
         ctx.h("head", head)
         ctx.h("fantasies", "%d/%d" % (nf, nf2))
+        if head in ("eipu", "cei"):
+            ctx.h("predictor_dict_order", "active metric last" if spec.get("active_last") else "active metric first")
         ctx.sample(dict(spec=spec, value_alone=out["v1"], value_with_grad=out["v2"],
                         head_gradients={k: {kk: vv.tolist() for kk, vv in v.items()} for k, v in out["grads"].items()}))
         s_eff = max(spec["std"], STD_MIN)
@@ -727,7 +744,7 @@ def gen_gp_spec(rng):
                 head=rng.choice(["ei", "lcb", "eipu", "cei"]), kappa=rng.uniform(0.3, 3.0),
                 expo=rng.choice([1.0, 0.5]), jitter=rng.choice([0.01, 0.1]),
                 x=[rng.uniform(0.05, 0.95) for _ in range(d)], normalize=rng.random() < 0.7,
-                explicit=rng.random() < 0.5)
+                explicit=rng.random() < 0.5, active_last=rng.random() < 0.5, active_last_arg=rng.random() < 0.5)
 
 
 def gp_observed(spec):
@@ -758,7 +775,7 @@ def build_gp_predictor(spec, metric, fn, seed_shift=0):
     return est.fit_from_state(state, update_params=True)
 
 
-def _gp_models(spec, M, seed_off=0):
+def _gp_models(spec, M, seed_off=0, active_last=False):
     """(constructor arguments of the acquisition class, predictor object/dict) for one fitted surrogate set"""
     from syne_tune.optimizer.schedulers.searchers.bayesopt.datatypes.common import INTERNAL_METRIC_NAME, INTERNAL_CONSTRAINT_NAME
     sp = dict(spec, seed=spec["seed"] + seed_off)
@@ -769,9 +786,9 @@ def _gp_models(spec, M, seed_off=0):
         return act
     if head == "eipu":
         cost = build_gp_predictor(sp, "cost_metric", lambda x: 1.0 + 2.0 * float(x[0]) + 0.3 * seed_off / 1000.0, seed_shift=1)
-        return {INTERNAL_METRIC_NAME: act, "cost_metric": cost}
+        return ordered({INTERNAL_METRIC_NAME: act, "cost_metric": cost}, active_last)
     con = build_gp_predictor(sp, INTERNAL_CONSTRAINT_NAME, lambda x: float(x[0]) - 0.6, seed_shift=2)
-    return {INTERNAL_METRIC_NAME: act, INTERNAL_CONSTRAINT_NAME: con}
+    return ordered({INTERNAL_METRIC_NAME: act, INTERNAL_CONSTRAINT_NAME: con}, active_last)
 
 
 def _make_acq(spec, M, predictor):
@@ -790,10 +807,16 @@ def _make_acq(spec, M, predictor):
 def check_acq_gradient(ctx, acq, x, kw, head, case, what, v_scale_tol=1e-5, h=1e-4):
     """value with gradient = value alone; EI-type value <= 0; returned gradient vs central differences of the
     VALUE, all with the same keyword arguments [kw] (predictor=None or an explicit predictor)."""
-    v1 = float(np.asarray(acq.compute_acq(x.reshape(1, -1), **kw)).reshape(-1)[0])
-    v2, g = acq.compute_acq_with_gradient(x.copy(), **kw)
-    g = np.asarray(g, dtype=float).reshape(-1)
     sig = dict(function="compute_acq_with_gradient", head=head, predictor=what)
+    try:
+        v1 = float(np.asarray(acq.compute_acq(x.reshape(1, -1), **kw)).reshape(-1)[0])
+        v2, g = acq.compute_acq_with_gradient(x.copy(), **kw)
+    except Exception as exc:   # a valid public call must not raise
+        ctx.violation("property", "%s (%s): compute_acq / compute_acq_with_gradient raised %s: %s" % (
+            head, what, type(exc).__name__, str(exc)[:200]), case=case,
+            signature=dict(sig, defect="exception", exception=type(exc).__name__))
+        return float("nan"), np.full(x.shape, np.nan)
+    g = np.asarray(g, dtype=float).reshape(-1)
     if not abs(v1 - float(v2)) <= 1e-10 * max(1.0, abs(v1)):
         ctx.violation("property", "%s (%s): compute_acq_with_gradient value %r differs from compute_acq %r" % (
             head, what, float(v2), v1), case=case, signature=dict(sig, defect="value_mismatch"))
@@ -819,8 +842,12 @@ def run_gp_acq(ctx, specs):
         with warnings.catch_warnings():
             warnings.simplefilter("ignore")
             head = spec["head"]
-            P1 = _gp_models(spec, M)
+            P1 = _gp_models(spec, M, active_last=spec.get("active_last", False))
             acq = _make_acq(spec, M, P1)
+            if head in ("eipu", "cei"):
+                ctx.h("gp_acq_predictor_dict_order", "ctor:%s/arg:%s" % (
+                    "last" if spec.get("active_last") else "first",
+                    ("last" if spec.get("active_last_arg") else "first") if spec.get("explicit") else "-"))
             x = np.array(spec["x"], dtype=float)
             ctx.count(("gp_acq", spec), nontrivial=spec["pending"] > 0 and spec["nf"] > 1)
             ctx.h("gp_acq_head", head)
@@ -869,8 +896,10 @@ def run_gp_acq(ctx, specs):
             if spec.get("explicit"):
                 # the documented optional argument: evaluate the SAME acquisition object on another fitted
                 # surrogate (other data, same number of fantasies)
-                P2 = _gp_models(spec, M, seed_off=1000)
+                P2 = _gp_models(spec, M, seed_off=1000, active_last=spec.get("active_last_arg", False))
                 v, g = check_acq_gradient(ctx, acq, x, dict(predictor=P2), head, case, "explicit predictor")
+                if np.isnan(v):
+                    continue
                 # ... and it must agree with an acquisition object constructed on that surrogate
                 acq2 = _make_acq(spec, M, _gp_models(spec, M, seed_off=1000))
                 v0, g0 = acq2.compute_acq_with_gradient(x.copy())
@@ -944,7 +973,8 @@ def gen_linear_spec(rng):
     head = rng.choice(["ei", "lcb", "eipu", "cei"])
     sec = {"eipu": "cost", "cei": "constr"}.get(head)
     spec = dict(head=head, d=d, nf=nf, x=x0, kappa=rng.uniform(0.3, 3.0), expo=rng.choice([1.0, 0.5]),
-                jitter=rng.choice([0.01, 0.1]), P1=dict(active=model("active")), P2=dict(active=model("active")))
+                jitter=rng.choice([0.01, 0.1]), P1=dict(active=model("active")), P2=dict(active=model("active")),
+                active_last_P1=rng.random() < 0.5, active_last_P2=rng.random() < 0.5)
     if sec:
         for P in ("P1", "P2"):
             spec[P][sec] = model(sec)
@@ -964,8 +994,10 @@ def run_linear_explicit(ctx, specs):
         if spec["head"] in ("ei", "lcb"):
             return act
         if spec["head"] == "eipu":
-            return {INTERNAL_METRIC_NAME: act, "cost_metric": Lin("cost_metric", spec[P]["cost"], keys=("mean",))}
-        return {INTERNAL_METRIC_NAME: act, INTERNAL_CONSTRAINT_NAME: Lin(INTERNAL_CONSTRAINT_NAME, spec[P]["constr"])}
+            return ordered({INTERNAL_METRIC_NAME: act, "cost_metric": Lin("cost_metric", spec[P]["cost"], keys=("mean",))},
+                           spec.get("active_last_" + P))
+        return ordered({INTERNAL_METRIC_NAME: act, INTERNAL_CONSTRAINT_NAME: Lin(INTERNAL_CONSTRAINT_NAME, spec[P]["constr"])},
+                       spec.get("active_last_" + P))
 
     for spec in specs:
         case = dict(kind="linear", spec=spec)
@@ -1141,7 +1173,8 @@ def run_fit_objective(ctx, specs):
 def run(ctx, replay=None):
     ctx.rule = ("cases: (a) real EI/LCB/EIpu/CEI acquisition objects on stub predictors returning generated "
                 "(mean, std, cost / constraint) fantasy arrays (nf 1..5, broadcasting both ways, clamped std/cost, "
-                "infeasible columns), compute_acq vs compute_acq_with_gradient vs PrimFloat model; (b) "
+                "infeasible columns; {output: predictor} dicts of the two-output heads with the active metric listed first "
+                "or last, also for the predictor= argument), compute_acq vs compute_acq_with_gradient vs PrimFloat model; (b) "
                 "cholesky_factorization_backward / AddJitterOp_vjp on random lower-triangular L (n 1..6) vs the "
                 "executable model; (b2) AddJitterOp on slightly indefinite symmetric matrices (smallest eigenvalue -1e-10..-1e-6 "
                 "relative, tiny sigsq_init) so that the retry loop runs, and GP objectives with a numerically singular kernel "
